@@ -52,6 +52,9 @@ func runE2E(c *E2ECase) (*attemptState, []hist.ExpTx, *hist.Layout, error) {
 	defer ss.close()
 	st := ss.run(attempt{l: l, pacing: c.Pacing})
 	st.drainLib()
+	if st.panicked != "" {
+		return st, exp, l, fmt.Errorf("%v", st.streamErr)
+	}
 	if !st.served {
 		return st, exp, l, fmt.Errorf("harness: dump request %+v was not servable", st.dumpReq)
 	}
@@ -78,7 +81,7 @@ func histClasses(h *hist.History) []string {
 			gt = "gtid=gtid"
 		case hist.UAnonGTID:
 			gt = "gtid=anonymous"
-		case hist.URotate:
+		case hist.URotate, hist.UFileEnd:
 			rot = true
 		}
 		for _, it := range u.Items {
@@ -171,6 +174,7 @@ func TestC01(t *testing.T) {
 		if nt {
 			rec.Sample(c)
 		}
+		journal("C01", "c01", c)
 		if err := checkC01(c); err != nil {
 			rec.Violation("c01", c, "", err)
 			rt.Fatalf("C01 violation: %v", err)
